@@ -164,7 +164,19 @@ pub fn run(ctx: &mut Ctx) {
             while let Some((_, payload)) = dev.get_next_signature_payload() { let sig: Signature = device_key.sign(payload); dev.submit_next_signature(sig.to_bytes().to_vec()).unwrap(); n_docs += 1; if n_docs > 5 { break; } }
             docs_per_round.push(n_docs);
             let Some(resp) = dev.retrieve_response() else { ctx.emit.line("spec", "spec:response-ready", "spec.eq none some".into(), "true".into(), case); break };
+            // in every fourth session the reader has its NEXT request ready before it processes this response (a queued follow-up):
+            // the two directions count their messages independently, so every message still decrypts, in order
+            let queued = if si % 4 == 2 { rdr.new_request(sess::simple_namespaces(&["family_name"])).ok() } else { None };
             let out = rdr.handle_response(&resp);
+            if let Some(q) = queued {
+                let o2 = dev.handle_request(&q);
+                device::SessionManager::prepare_response(dev, &o2.items_request, [(MDL.to_string(), [(NS.to_string(), vec!["family_name".to_string()])].into_iter().collect())].into_iter().collect());
+                while let Some((_, payload)) = dev.get_next_signature_payload() { let sig: Signature = device_key.sign(payload); dev.submit_next_signature(sig.to_bytes().to_vec()).unwrap(); }
+                let r2 = dev.retrieve_response().map(|m| rdr.handle_response(&m));
+                docs_per_round.push(1);   // the queued request's round: one document
+                let ok = o2.errors.is_empty() && r2.as_ref().map(|r| !r.errors.contains_key("decryption_errors")).unwrap_or(false) && !out.errors.contains_key("decryption_errors");
+                ctx.emit.line("spec", "spec:queued-request-round", format!("spec.eq {} true", ok), "true".into(), json!({"session": si, "round": round, "request_errors": format!("{:?}", o2.errors), "msg_hex": format!("{si}-{round}-q")}));
+            }
             // what the reader reports
             let mut reported: BTreeMap<String, BTreeSet<String>> = BTreeMap::new(); let mut values_ok = true; let mut first_bad = String::new();
             for (ns, v) in &out.response { if let Some(m) = v.as_object() { for (e, val) in m { reported.entry(ns.clone()).or_default().insert(e.clone());
